@@ -1,7 +1,10 @@
 (* Proofs/WalkSourceMatch.v -- document() and document_single_file() of src/cminx/__init__.py, as
    regenerated from the current source into Gen/PyWalkSource.v by translators/pywalk2coq.py, produce on
    the abstract world of Base/PyWalkSem.v exactly the action list of the hand-written model
-   Model/Walk.v -- for every tree, settings, exclusion predicate, header list and documenter. *)
+   Model/Walk.v -- for every tree, settings, exclusion predicate, header list and documenter, and
+   wherever the output directory is: when it is a directory of the input tree the source prunes it
+   from the walk exactly like a directory matched by an exclusion pattern, which the model expresses
+   by the exclusion predicate excl_with_output. *)
 From Coq Require Import String List NArith ZArith Bool Arith Lia Permutation.
 From CMinx Require Import Base.Str Base.PySem Base.PyWalkSem Model.Writer Model.Path Model.Naming
      Model.Pipeline Model.Walk Gen.PyWalkSource Proofs.WalkFacts.
@@ -25,6 +28,43 @@ Definition kind_distinct (k : input_kind) : bool :=
 
 (* recording a list of actions *)
 Definition emits (log : pylog) (acts : list action) : pylog := fold_left py_emit acts log.
+
+(* o : where the output directory is relative to the input (pw_out_in_input of the world, A11):
+   Some rel = it is the directory at rel below the input directory, None = not in the input tree *)
+Definition is_nil {A : Type} (l : list A) : bool := match l with [] => true | _ :: _ => false end.
+Definition is_output_dir (o : option (list str)) (rel : list str) : bool :=
+  match o with Some q => strs_eqb rel q | None => false end.
+(* the exclusion predicate of the model that absorbs the pruning of the output directory: the
+   patterns, or (for a directory other than the input directory itself) being the output directory.
+   The input directory and the files are judged by the patterns alone. *)
+Definition excl_with_output (excl : list str -> bool -> bool) (o : option (list str))
+           (rel : list str) (isdir : bool) : bool :=
+  excl rel isdir || (isdir && negb (is_nil rel) && is_output_dir o rel).
+(* the world and the settings agree: without a configured output directory there is none in the
+   input tree *)
+Definition out_consistent (st : wsettings) (o : option (list str)) : bool :=
+  ws_out st || match o with None => true | Some _ => false end.
+
+Lemma excl_with_output_none : forall excl rel isdir, excl_with_output excl None rel isdir = excl rel isdir.
+Proof.
+  intros excl rel isdir. unfold excl_with_output, is_output_dir. rewrite andb_false_r, orb_false_r. reflexivity.
+Qed.
+
+Lemma excl_with_output_file : forall excl o rel, excl_with_output excl o rel false = excl rel false.
+Proof. intros excl o rel. unfold excl_with_output. cbn [andb]. apply orb_false_r. Qed.
+
+Lemma excl_with_output_input : forall excl o isdir, excl_with_output excl o [] isdir = excl [] isdir.
+Proof.
+  intros excl o isdir. unfold excl_with_output. cbn [is_nil negb]. rewrite andb_false_r. cbn [andb]. apply orb_false_r.
+Qed.
+
+Lemma excl_with_output_dir : forall excl o rel d,
+  excl_with_output excl o (rel ++ [d]) true = excl (rel ++ [d]) true || is_output_dir o (rel ++ [d]).
+Proof.
+  intros excl o rel d. unfold excl_with_output.
+  assert (H : is_nil (rel ++ [d]) = false) by (destruct rel; reflexivity).
+  rewrite H. reflexivity.
+Qed.
 
 (* ================================================================== *)
 (* effects                                                             *)
@@ -268,21 +308,21 @@ Section SingleFile2.
   Variable excl : list str -> bool -> bool.
   Variable follow : bool.
 
-  Lemma single_file_dir : forall base top log rel ch name content sl,
+  Lemma single_file_dir : forall base top o log rel ch name content sl,
     dir_at top rel = Some ch -> find_file name ch = Some content ->
-    PyWalkSource.document_single_file (PyWorld base (KDir top)) docfn log
+    PyWalkSource.document_single_file (PyWorld base (KDir top) o) docfn log
       (APath AInput (rel ++ [name]) false) (APath AInput [] sl) (py_settings_of st hdrs excl follow)
     = emits log (doc_actions st docfn (ws_prefix st) (rel_string (rel ++ [name])) rel name content).
   Proof.
-    intros base top log rel ch name content sl Hd Hf.
+    intros base top o log rel ch name content sl Hd Hf.
     unfold PyWalkSource.document_single_file. cbv beta zeta.
     unfold py_settings_of.
     cbn [st_output_directory st_rst_prefix st_rst_module_path_separator st_rst_file_extensions_in_titles
          st_rst_file_extensions_in_modules].
-    assert (Hisdir : forall s0, py_os_path_isdir (PyWorld base (KDir top)) (APath AInput [] s0) = true) by reflexivity.
+    assert (Hisdir : forall s0, py_os_path_isdir (PyWorld base (KDir top) o) (APath AInput [] s0) = true) by reflexivity.
     assert (Hrel : forall s0, py_os_path_relpath (APath AInput (rel ++ [name]) false) (APath AInput [] s0)
                    = RPath (rel ++ [name]) false) by reflexivity.
-    assert (Hbase : py_os_path_basename (PyWorld base (KDir top)) (APath AInput (rel ++ [name]) false) = name).
+    assert (Hbase : py_os_path_basename (PyWorld base (KDir top) o) (APath AInput (rel ++ [name]) false) = name).
     { unfold py_os_path_basename. cbn [ap_slash ap_comps]. rewrite last_opt_snoc. reflexivity. }
     rewrite !Hisdir, !Hrel, !Hbase, !py_rpath_text_rel.
     set (nm := rel_string (rel ++ [name])).
@@ -296,7 +336,7 @@ Section SingleFile2.
               = APath AOutput (rel ++ [stem name ++ s".rst"]) false).
       { rewrite py_stem_is, py_rpath_of_rst. unfold py_os_path_dirname_rel. cbn [rp_comps].
         rewrite drop_last_snoc. destruct rel; reflexivity. }
-      assert (Hc : pw_file_at (PyWorld base (KDir top)) (rel ++ [name]) = Some content).
+      assert (Hc : pw_file_at (PyWorld base (KDir top) o) (rel ++ [name]) = Some content).
       { unfold pw_file_at. cbn [pw_kind]. rewrite (file_at_snoc _ _ _ _ Hd). exact Hf. }
       unfold py_documenter_process, py_Documenter, doc_actions.
       cbn [dc_file dc_header dc_module ap_comps]. rewrite Hc.
@@ -304,7 +344,7 @@ Section SingleFile2.
         as [title modname].
       cbn [fst snd].
       destruct (docfn title modname content); destruct (ws_out st); cbv iota beta;
-        try change (py_os_path_isdir (PyWorld base (KDir top)) out_root) with true; cbv iota;
+        try change (py_os_path_isdir (PyWorld base (KDir top) o) out_root) with true; cbv iota;
         rewrite ?Hpath;
         unfold py_os_makedirs, py_rendered_write_to_file, py_print, py_rendered_str, out_root, emits;
         cbn [ap_anchor ap_comps fold_left];
@@ -317,18 +357,18 @@ Section SingleFile2.
         destruct (ws_ext_titles st); rewrite <- ?app_assoc; reflexivity.
   Qed.
 
-  Lemma single_file_file : forall base content log,
-    PyWalkSource.document_single_file (PyWorld base (KFile content)) docfn log
+  Lemma single_file_file : forall base content o log,
+    PyWalkSource.document_single_file (PyWorld base (KFile content) o) docfn log
       (APath AInput [] false) (APath AInput [] false) (py_settings_of st hdrs excl follow)
     = emits log (doc_actions st docfn (ws_prefix st) base [] base content).
   Proof.
-    intros base content log.
+    intros base content o log.
     unfold PyWalkSource.document_single_file. cbv beta zeta.
     unfold py_settings_of.
     cbn [st_output_directory st_rst_prefix st_rst_module_path_separator st_rst_file_extensions_in_titles
          st_rst_file_extensions_in_modules].
-    assert (Hisdir : py_os_path_isdir (PyWorld base (KFile content)) (APath AInput [] false) = false) by reflexivity.
-    assert (Hbase : py_os_path_basename (PyWorld base (KFile content)) (APath AInput [] false) = base) by reflexivity.
+    assert (Hisdir : py_os_path_isdir (PyWorld base (KFile content) o) (APath AInput [] false) = false) by reflexivity.
+    assert (Hbase : py_os_path_basename (PyWorld base (KFile content) o) (APath AInput [] false) = base) by reflexivity.
     rewrite !Hisdir, !Hbase.
     match goal with |- context [py_Documenter _ ?t ?m _] =>
       replace t with (fst (header_and_module (ws_prefix st) (ws_sep st) (ws_ext_titles st) (ws_ext_modules st) base));
@@ -344,7 +384,7 @@ Section SingleFile2.
         as [title modname].
       cbn [fst snd].
       destruct (docfn title modname content); destruct (ws_out st); cbv iota beta;
-        try change (py_os_path_isdir (PyWorld base (KFile content)) out_root) with true; cbv iota;
+        try change (py_os_path_isdir (PyWorld base (KFile content) o) out_root) with true; cbv iota;
         rewrite ?Hpath;
         unfold py_os_makedirs, py_rendered_write_to_file, py_print, py_rendered_str, out_root, emits;
         cbn [ap_anchor ap_comps fold_left];
@@ -543,15 +583,15 @@ Section WalkLoop.
         rewrite (G dc (fun c Hc => Hc) log1); reflexivity.
   Qed.
 
-  Lemma os_walk_dir : forall base follow sl log,
+  Lemma os_walk_dir : forall base o follow sl log,
     names_distinct top = true ->
-    py_os_walk (PyWorld base (KDir top)) (APath AInput [] sl) follow body log
+    py_os_walk (PyWorld base (KDir top) o) (APath AInput [] sl) follow body log
     = emits log (if ws_recursive st
                  then flat_map snd (visit_dir st hdrs docfn excl prefix [] top
                                     :: visits st hdrs docfn excl prefix [] top)
                  else snd (visit_dir st hdrs docfn excl prefix [] top)).
   Proof.
-    intros base follow sl log Hdist. unfold py_os_walk, pw_dir_at. cbn [ap_anchor ap_comps pw_kind dir_at].
+    intros base o follow sl log Hdist. unfold py_os_walk, pw_dir_at. cbn [ap_anchor ap_comps pw_kind dir_at].
     destruct (ws_recursive st) eqn:Hrec.
     - rewrite (walk_node_rec Hrec (D [] top) Hdist [] top eq_refl [] sl log eq_refl). reflexivity.
     - unfold names_distinct in Hdist. apply andb_true_iff in Hdist. destruct Hdist as [Hl _].
@@ -679,12 +719,12 @@ Section Body.
   Qed.
 
   (* the per-file loop *)
-  Lemma docs_loop : forall base top rel ch sl (b : pylog -> str -> pylog),
+  Lemma docs_loop : forall base top o rel ch sl (b : pylog -> str -> pylog),
     dir_at top rel = Some ch -> nodup_names (file_names ch) = true ->
     (forall log0 file,
         b log0 file
         = if is_cmake_name file
-          then PyWalkSource.document_single_file (PyWorld base (KDir top)) docfn log0
+          then PyWalkSource.document_single_file (PyWorld base (KDir top) o) docfn log0
                  (APath AInput (rel ++ [file]) false) (APath AInput [] sl)
                  (py_settings_of st hdrs excl follow)
           else log0) ->
@@ -695,11 +735,11 @@ Section Body.
                                                      rel (fst f) (snd f)
                                     else []) l).
   Proof.
-    intros base top rel ch sl b Hd Hnd Hb. unfold py_for.
+    intros base top o rel ch sl b Hd Hnd Hb. unfold py_for.
     induction l as [|f r IH]; intros Hin log; [reflexivity|].
     cbn [map fold_left flat_map]. rewrite <- emits_app. rewrite <- IH.
     - f_equal. rewrite Hb. destruct (is_cmake_name (fst f)); [|reflexivity].
-      apply (single_file_dir st hdrs docfn excl follow base top log rel ch (fst f) (snd f) sl Hd).
+      apply (single_file_dir st hdrs docfn excl follow base top o log rel ch (fst f) (snd f) sl Hd).
       apply find_file_in; [exact Hnd|]. apply Hin. left. reflexivity.
     - intros g Hg. apply Hin. right. exact Hg.
   Qed.
@@ -712,14 +752,37 @@ Section Main.
   Variable excl : list str -> bool -> bool.
   Variable follow : bool.
 
-  Lemma document_dir_source : forall base top input_file,
-    names_distinct top = true ->
-    PyWalkSource.document (PyWorld base (KDir top)) docfn [] input_file (py_settings_of st hdrs excl follow)
-    = Walk.document st hdrs docfn excl base (KDir top).
+  (* the new disjunct of the exclusion test of the sub-directories:
+     os.path.abspath(os.path.join(root, subdir)) == output_dir *)
+  Lemma outdir_test : forall base kind o rel sl d,
+    py_eq_optional (py_npath_eq (PyWorld base kind o))
+      (py_os_path_abspath_of (py_os_path_join (APath AInput rel sl) (py_rpath_of_name d)))
+      (match (if ws_out st then Some out_root else None) with
+       | Some p => Some (py_os_path_abspath_of p)
+       | None => None
+       end)
+    = ws_out st && is_output_dir o (rel ++ [d]).
   Proof.
-    intros base top input_file Hdist.
+    intros base kind o rel sl d. destruct (ws_out st); [|reflexivity].
+    unfold py_eq_optional, py_npath_eq, py_os_path_abspath_of, py_os_path_join, py_rpath_of_name, out_root,
+           py_same_position, is_output_dir.
+    cbn [ap_anchor ap_comps rp_comps np_anchor np_comps pw_out_in_input andb].
+    destruct o as [q|]; [rewrite app_nil_r|]; reflexivity.
+  Qed.
+
+  (* The directory case for any predicate E of the model that is the patterns on the files and on
+     the input directory, and the patterns or being the output directory on the sub-directories. *)
+  Lemma document_dir_source_gen : forall (E : list str -> bool -> bool) o base top input_file,
+    (forall p, E p false = excl p false) ->
+    E [] true = excl [] true ->
+    (forall rel d, E (rel ++ [d]) true = excl (rel ++ [d]) true || (ws_out st && is_output_dir o (rel ++ [d]))) ->
+    names_distinct top = true ->
+    PyWalkSource.document (PyWorld base (KDir top) o) docfn [] input_file (py_settings_of st hdrs excl follow)
+    = Walk.document st hdrs docfn E base (KDir top).
+  Proof.
+    intros E o base top input_file HEf HE0 HEd Hdist.
     unfold PyWalkSource.document, Walk.document.
-    set (w := PyWorld base (KDir top)).
+    set (w := PyWorld base (KDir top) o).
     cbv zeta.
     assert (H1 : py_os_path_isdir w (py_os_path_abspath w input_file) = true) by reflexivity.
     rewrite !H1.
@@ -727,7 +790,7 @@ Section Main.
     rewrite !H2.
     assert (H3 : py_spec_match_file (py_pathspec_from_lines (st_input_exclude_filters (py_settings_of st hdrs excl follow)))
                    (APath AInput [] true) = excl [] true) by reflexivity.
-    rewrite !H3.
+    rewrite !H3, HE0.
     destruct (excl [] true) eqn:Etop; [reflexivity|].
     assert (H4 : py_os_path_exists w (APath AInput [] true) = true) by reflexivity.
     assert (H5 : py_os_path_isfile w (APath AInput [] true) = false) by reflexivity.
@@ -742,20 +805,23 @@ Section Main.
          st_rst_module_path_separator st_rst_file_extensions_in_titles st_rst_file_extensions_in_modules
          st_rst_headers].
     unfold py_copy, py_pathspec_from_lines.
-    assert (Hbn : py_os_path_basename (PyWorld base (KDir top)) (py_os_path_normpath (APath AInput [] true)) = base)
+    assert (Hbn : py_os_path_basename (PyWorld base (KDir top) o) (py_os_path_normpath (APath AInput [] true)) = base)
       by reflexivity.
     rewrite !Hbn.
     set (P := match ws_prefix st with Some p => p | None => base end).
     unfold level_distinct in Hl. apply andb_true_iff in Hl. destruct Hl as [Hld Hlf].
-    (* the two exclusion loops *)
+    (* the two exclusion loops: the files by the patterns alone, the sub-directories by the
+       patterns or by being the output directory *)
     match goal with |- context [py_for (file_names ch) ?b (file_names ch)] =>
-      rewrite (loop_excl b (fun x => excl (rel ++ [x]) false) (file_names ch)) by (intros; reflexivity)
+      rewrite (loop_excl b (fun x => E (rel ++ [x]) false) (file_names ch))
+        by (intros acc x; rewrite HEf; reflexivity)
     end.
     match goal with |- context [py_for (dir_names ch) ?b (dir_names ch)] =>
-      rewrite (loop_excl b (fun d => excl (rel ++ [d]) true) (dir_names ch)) by (intros; reflexivity)
+      rewrite (loop_excl b (fun d => E (rel ++ [d]) true) (dir_names ch))
+        by (intros acc x; rewrite HEd, <- (outdir_test base (KDir top) o rel sl x); reflexivity)
     end.
-    set (fs := filter (fun x => negb (excl (rel ++ [x]) false)) (file_names ch)).
-    set (ds1 := filter (fun d => negb (excl (rel ++ [d]) true)) (dir_names ch)).
+    set (fs := filter (fun x => negb (E (rel ++ [x]) false)) (file_names ch)).
+    set (ds1 := filter (fun d => negb (E (rel ++ [d]) true)) (dir_names ch)).
     (* is there a .cmake file here *)
     match goal with |- context [py_for_ctl fs ?b tt] =>
       rewrite (search_loop b lc_cmake_suffix fs)
@@ -764,7 +830,7 @@ Section Main.
     end.
     (* auto-exclusion of the sub-directories *)
     match goal with |- context [py_for ds1 ?b ds1] =>
-      rewrite (loop_excl b (fun d => negb (has_cmake excl rel ch d)) ds1)
+      rewrite (loop_excl b (fun d => negb (has_cmake E rel ch d)) ds1)
     end.
     2:{ intros acc x.
         unfold py_os_scandir, py_os_path_join, py_rpath_of_name, pw_dir_at.
@@ -773,24 +839,24 @@ Section Main.
         destruct (find_dir x ch) as [c|]; [|reflexivity].
         rewrite py_for_ctl_unit. cbv iota beta. rewrite existsb_map.
         rewrite (existsb_ext_in _ (fun n => match n with
-                                            | F fn _ => lc_cmake_suffix fn && negb (excl (rel ++ [x; fn]) false)
+                                            | F fn _ => lc_cmake_suffix fn && negb (E (rel ++ [x; fn]) false)
                                             | D _ _ => false
                                             end) c).
         - destruct (existsb _ c); reflexivity.
         - intros n _. destruct n as [fn fc|dn dc]; cbn [de_is_file de_path node_name andb]; [|reflexivity].
           unfold py_apath_endswith, py_spec_match_file. cbn [ap_comps ap_slash ap_anchor].
-          rewrite last_opt_snoc. rewrite <- app_assoc. cbn [app negb andb].
+          rewrite last_opt_snoc. rewrite <- app_assoc. cbn [app negb andb]. rewrite HEf.
           unfold lc_cmake_suffix, cmake_ext.
           destruct (endswith (s".cmake") fn); destruct (excl (rel ++ [x; fn]) false); reflexivity. }
-    set (ds2 := filter (fun d => negb (negb (has_cmake excl rel ch d))) ds1).
-    set (kept := map node_name (filter (keep_dir st excl rel) ch)).
-    set (files := filter (fun f => negb (excl (rel ++ [fst f]) false)) (file_entries ch)).
+    set (ds2 := filter (fun d => negb (negb (has_cmake E rel ch d))) ds1).
+    set (kept := map node_name (filter (keep_dir st E rel) ch)).
+    set (files := filter (fun f => negb (E (rel ++ [fst f]) false)) (file_entries ch)).
     assert (Hfs : fs = map fst files).
     { unfold fs, files. rewrite file_names_entries, filter_map_comm. reflexivity. }
     assert (Hproc : existsb lc_cmake_suffix fs = existsb (fun f => lc_cmake_suffix (fst f)) files).
     { rewrite Hfs. apply existsb_map. }
     assert (Hkept : (if ws_auto_exclude st then ds2 else ds1) = kept).
-    { unfold kept. rewrite <- (kept_names st excl rel ch Hld ch (fun c Hc => Hc)).
+    { unfold kept. rewrite <- (kept_names st E rel ch Hld ch (fun c Hc => Hc)).
       unfold ds2, ds1. destruct (ws_auto_exclude st).
       - rewrite filter_filter. apply filter_ext_in'. intros d _. rewrite negb_involutive. reflexivity.
       - apply filter_ext_in'. intros d _. cbn [negb orb]. rewrite andb_true_r. reflexivity. }
@@ -822,7 +888,7 @@ Section Main.
     assert (Hsorted : py_sorted fs = map fst (sort_by fst files)).
     { unfold py_sorted. rewrite Hfs. apply sort_by_map_fst. }
     rewrite Hsorted.
-    rewrite (docs_loop (with_prefix st (Some P)) hdrs docfn excl follow base top rel ch true _ Hd Hlf).
+    rewrite (docs_loop (with_prefix st (Some P)) hdrs docfn excl follow base top o rel ch true _ Hd Hlf).
     2:{ intros log0 file. reflexivity. }
     2:{ intros f Hf. apply (Permutation_in _ (sort_by_perm fst files)) in Hf.
         unfold files in Hf. apply filter_In in Hf. destruct Hf as [Hf _].
@@ -856,13 +922,14 @@ Section Main.
       rewrite !map_map, ?map_id; reflexivity.
   Qed.
 
-  Lemma document_file_source : forall base content input_file,
-    PyWalkSource.document (PyWorld base (KFile content)) docfn [] input_file (py_settings_of st hdrs excl follow)
-    = Walk.document st hdrs docfn excl base (KFile content).
+  Lemma document_file_source_gen : forall (E : list str -> bool -> bool) o base content input_file,
+    E [] false = excl [] false ->
+    PyWalkSource.document (PyWorld base (KFile content) o) docfn [] input_file (py_settings_of st hdrs excl follow)
+    = Walk.document st hdrs docfn E base (KFile content).
   Proof.
-    intros base content input_file.
+    intros E o base content input_file HE0.
     unfold PyWalkSource.document, Walk.document.
-    set (w := PyWorld base (KFile content)).
+    set (w := PyWorld base (KFile content) o).
     cbv zeta.
     assert (H1 : py_os_path_isdir w (py_os_path_abspath w input_file) = false) by reflexivity.
     rewrite !H1.
@@ -870,7 +937,7 @@ Section Main.
     rewrite !H2.
     assert (H3 : py_spec_match_file (py_pathspec_from_lines (st_input_exclude_filters (py_settings_of st hdrs excl follow)))
                    (APath AInput [] false) = excl [] false) by reflexivity.
-    rewrite !H3.
+    rewrite !H3, HE0.
     destruct (excl [] false) eqn:Etop; [reflexivity|].
     assert (H4 : py_os_path_exists w (APath AInput [] false) = true) by reflexivity.
     assert (H5 : py_os_path_isfile w (APath AInput [] false) = true) by reflexivity.
@@ -881,13 +948,14 @@ Section Main.
     destruct (ws_out st); reflexivity.
   Qed.
 
-  Lemma document_missing_source : forall base input_file,
-    PyWalkSource.document (PyWorld base KMissing) docfn [] input_file (py_settings_of st hdrs excl follow)
-    = Walk.document st hdrs docfn excl base KMissing.
+  Lemma document_missing_source_gen : forall (E : list str -> bool -> bool) o base input_file,
+    E [] false = excl [] false ->
+    PyWalkSource.document (PyWorld base KMissing o) docfn [] input_file (py_settings_of st hdrs excl follow)
+    = Walk.document st hdrs docfn E base KMissing.
   Proof.
-    intros base input_file.
+    intros E o base input_file HE0.
     unfold PyWalkSource.document, Walk.document.
-    set (w := PyWorld base KMissing).
+    set (w := PyWorld base KMissing o).
     cbv zeta.
     assert (H1 : py_os_path_isdir w (py_os_path_abspath w input_file) = false) by reflexivity.
     rewrite !H1.
@@ -895,65 +963,115 @@ Section Main.
     rewrite !H2.
     assert (H3 : py_spec_match_file (py_pathspec_from_lines (st_input_exclude_filters (py_settings_of st hdrs excl follow)))
                    (APath AInput [] false) = excl [] false) by reflexivity.
-    rewrite !H3.
+    rewrite !H3, HE0.
     destruct (excl [] false) eqn:Etop; [reflexivity|].
     assert (H4 : py_os_path_exists w (APath AInput [] false) = false) by reflexivity.
     rewrite !H4. reflexivity.
   Qed.
 
-  (* ---- the main theorem: document() of the current source is the model's document ---- *)
-  Theorem document_matches_source : forall base kind input_file,
+  Lemma document_source_gen : forall (E : list str -> bool -> bool) o base kind input_file,
+    (forall p, E p false = excl p false) ->
+    E [] true = excl [] true ->
+    (forall rel d, E (rel ++ [d]) true = excl (rel ++ [d]) true || (ws_out st && is_output_dir o (rel ++ [d]))) ->
     kind_distinct kind = true ->
-    PyWalkSource.document (PyWorld base kind) docfn [] input_file (py_settings_of st hdrs excl follow)
-    = Walk.document st hdrs docfn excl base kind.
+    PyWalkSource.document (PyWorld base kind o) docfn [] input_file (py_settings_of st hdrs excl follow)
+    = Walk.document st hdrs docfn E base kind.
   Proof.
-    intros base kind input_file Hk. destruct kind as [|content|top].
-    - apply document_missing_source.
-    - apply document_file_source.
-    - apply document_dir_source. exact Hk.
+    intros E o base kind input_file HEf HE0 HEd Hk. destruct kind as [|content|top].
+    - apply document_missing_source_gen. apply HEf.
+    - apply document_file_source_gen. apply HEf.
+    - apply document_dir_source_gen; assumption.
   Qed.
 
-  (* an input matched by the exclusion patterns: nothing at all, whatever is there *)
-  Theorem document_excluded_input_source : forall base kind input_file,
-    excl [] (match kind with KDir _ => true | _ => false end) = true ->
-    PyWalkSource.document (PyWorld base kind) docfn [] input_file (py_settings_of st hdrs excl follow) = [].
+  (* ---- the main theorem: document() of the current source is the model's document, the output
+     directory (when it is a directory of the input tree) being pruned like an excluded one ---- *)
+  Theorem document_matches_source : forall base kind input_file o,
+    kind_distinct kind = true -> out_consistent st o = true ->
+    PyWalkSource.document (PyWorld base kind o) docfn [] input_file (py_settings_of st hdrs excl follow)
+    = Walk.document st hdrs docfn (excl_with_output excl o) base kind.
   Proof.
-    intros base kind input_file He.
+    intros base kind input_file o Hk Ho. apply document_source_gen.
+    - intros p. apply excl_with_output_file.
+    - apply excl_with_output_input.
+    - intros rel d. rewrite excl_with_output_dir. f_equal.
+      unfold out_consistent in Ho. destruct (ws_out st); [reflexivity|].
+      destruct o as [q|]; [discriminate Ho|reflexivity].
+    - exact Hk.
+  Qed.
+
+  (* the three branches, in the shape of the main theorem *)
+  Corollary document_dir_source : forall base top input_file o,
+    names_distinct top = true -> out_consistent st o = true ->
+    PyWalkSource.document (PyWorld base (KDir top) o) docfn [] input_file (py_settings_of st hdrs excl follow)
+    = Walk.document st hdrs docfn (excl_with_output excl o) base (KDir top).
+  Proof. intros base top input_file o Hd Ho. apply (document_matches_source base (KDir top) input_file o Hd Ho). Qed.
+
+  Corollary document_file_source : forall base content input_file o,
+    PyWalkSource.document (PyWorld base (KFile content) o) docfn [] input_file (py_settings_of st hdrs excl follow)
+    = Walk.document st hdrs docfn excl base (KFile content).
+  Proof. intros base content input_file o. apply document_file_source_gen. reflexivity. Qed.
+
+  Corollary document_missing_source : forall base input_file o,
+    PyWalkSource.document (PyWorld base KMissing o) docfn [] input_file (py_settings_of st hdrs excl follow)
+    = Walk.document st hdrs docfn excl base KMissing.
+  Proof. intros base input_file o. apply document_missing_source_gen. reflexivity. Qed.
+
+  (* the output directory is not in the input tree (or none is configured): the statement as it
+     was before the pruning existed, with the exclusion patterns alone *)
+  Theorem document_matches_source_output_outside : forall base kind input_file,
+    kind_distinct kind = true ->
+    PyWalkSource.document (PyWorld base kind None) docfn [] input_file (py_settings_of st hdrs excl follow)
+    = Walk.document st hdrs docfn excl base kind.
+  Proof.
+    intros base kind input_file Hk. apply document_source_gen.
+    - reflexivity.
+    - reflexivity.
+    - intros rel d. cbn [is_output_dir]. rewrite andb_false_r, orb_false_r. reflexivity.
+    - exact Hk.
+  Qed.
+
+  (* an input matched by the exclusion patterns: nothing at all, whatever is there and wherever
+     the output directory is *)
+  Theorem document_excluded_input_source : forall base kind input_file o,
+    excl [] (match kind with KDir _ => true | _ => false end) = true ->
+    PyWalkSource.document (PyWorld base kind o) docfn [] input_file (py_settings_of st hdrs excl follow) = [].
+  Proof.
+    intros base kind input_file o He.
     unfold PyWalkSource.document. cbv zeta.
     destruct kind as [|content|top].
-    - assert (H1 : py_os_path_isdir (PyWorld base KMissing) (py_os_path_abspath (PyWorld base KMissing) input_file) = false)
+    - assert (H1 : py_os_path_isdir (PyWorld base KMissing o) (py_os_path_abspath (PyWorld base KMissing o) input_file) = false)
         by reflexivity.
       rewrite !H1.
       assert (H3 : py_spec_match_file (py_pathspec_from_lines (st_input_exclude_filters (py_settings_of st hdrs excl follow)))
-                     (py_os_path_abspath (PyWorld base KMissing) input_file) = excl [] false) by reflexivity.
+                     (py_os_path_abspath (PyWorld base KMissing o) input_file) = excl [] false) by reflexivity.
       rewrite !H3, He. reflexivity.
-    - assert (H1 : py_os_path_isdir (PyWorld base (KFile content))
-                     (py_os_path_abspath (PyWorld base (KFile content)) input_file) = false) by reflexivity.
+    - assert (H1 : py_os_path_isdir (PyWorld base (KFile content) o)
+                     (py_os_path_abspath (PyWorld base (KFile content) o) input_file) = false) by reflexivity.
       rewrite !H1.
       assert (H3 : py_spec_match_file (py_pathspec_from_lines (st_input_exclude_filters (py_settings_of st hdrs excl follow)))
-                     (py_os_path_abspath (PyWorld base (KFile content)) input_file) = excl [] false) by reflexivity.
+                     (py_os_path_abspath (PyWorld base (KFile content) o) input_file) = excl [] false) by reflexivity.
       rewrite !H3, He. reflexivity.
-    - assert (H1 : py_os_path_isdir (PyWorld base (KDir top))
-                     (py_os_path_abspath (PyWorld base (KDir top)) input_file) = true) by reflexivity.
+    - assert (H1 : py_os_path_isdir (PyWorld base (KDir top) o)
+                     (py_os_path_abspath (PyWorld base (KDir top) o) input_file) = true) by reflexivity.
       rewrite !H1.
       assert (H3 : py_spec_match_file (py_pathspec_from_lines (st_input_exclude_filters (py_settings_of st hdrs excl follow)))
-                     (py_os_path_join (py_os_path_abspath (PyWorld base (KDir top)) input_file) py_rpath_empty)
+                     (py_os_path_join (py_os_path_abspath (PyWorld base (KDir top) o) input_file) py_rpath_empty)
                    = excl [] true) by reflexivity.
       rewrite !H3, He. reflexivity.
   Qed.
 
   (* ---- document_single_file of the current source is the model's doc_actions ---- *)
   (* a file below an input directory (the call from the walk) *)
-  Theorem document_single_file_matches_source : forall base top log rel ch name content sl,
+  Theorem document_single_file_matches_source : forall base top o log rel ch name content sl,
     dir_at top rel = Some ch -> find_file name ch = Some content ->
-    PyWalkSource.document_single_file (PyWorld base (KDir top)) docfn log
+    PyWalkSource.document_single_file (PyWorld base (KDir top) o) docfn log
       (APath AInput (rel ++ [name]) false) (APath AInput [] sl) (py_settings_of st hdrs excl follow)
     = emits log (doc_actions st docfn (ws_prefix st) (rel_string (rel ++ [name])) rel name content).
   Proof. exact (single_file_dir st hdrs docfn excl follow). Qed.
 
   (* the input is itself a regular file *)
-  Theorem document_single_file_matches_source_file : forall base content log,
-    PyWalkSource.document_single_file (PyWorld base (KFile content)) docfn log
+  Theorem document_single_file_matches_source_file : forall base content o log,
+    PyWalkSource.document_single_file (PyWorld base (KFile content) o) docfn log
       (APath AInput [] false) (APath AInput [] false) (py_settings_of st hdrs excl follow)
     = emits log (doc_actions st docfn (ws_prefix st) base [] base content).
   Proof. exact (single_file_file st hdrs docfn excl follow). Qed.
@@ -1040,9 +1158,12 @@ Module Examples.
   Definition hdrs1 : list str := [s"#"; s"*"; s"="].
   Definition mk (out rec : bool) (pre : option str) (auto : bool) : wsettings :=
     Build_wsettings out rec pre auto (s".") false true.
-  Definition run (st : wsettings) (kind : input_kind) : list action :=
-    PyWalkSource.document (PyWorld (s"proj") kind) docfn1 [] (s"some/where/proj")
+  (* o: where the output directory is relative to the input *)
+  Definition run_at (o : option (list str)) (st : wsettings) (kind : input_kind) : list action :=
+    PyWalkSource.document (PyWorld (s"proj") kind o) docfn1 [] (s"some/where/proj")
                           (py_settings_of st hdrs1 excl1 true).
+  (* the output directory outside the input tree *)
+  Definition run (st : wsettings) (kind : input_kind) : list action := run_at None st kind.
   Definition model (st : wsettings) (kind : input_kind) : list action :=
     Walk.document st hdrs1 docfn1 excl1 (s"proj") kind.
   Definition wpaths (acts : list action) : list (list str) :=
@@ -1105,7 +1226,7 @@ Module Examples.
 
   (* the other input kinds *)
   Definition runf (st : wsettings) : list action :=
-    PyWalkSource.document (PyWorld (s"top.cmake") (KFile [1%N])) docfn1 [] (s"top.cmake")
+    PyWalkSource.document (PyWorld (s"top.cmake") (KFile [1%N]) None) docfn1 [] (s"top.cmake")
                           (py_settings_of st hdrs1 excl1 true).
   Example run_file :
     runf (mk true true None true) = Walk.document (mk true true None true) hdrs1 docfn1 excl1 (s"top.cmake") (KFile [1%N])
@@ -1117,9 +1238,82 @@ Module Examples.
   Example run_missing : run (mk true true None true) KMissing = [AExit255].
   Proof. vm_compute. reflexivity. Qed.
   Example run_excluded_input :
-    PyWalkSource.document (PyWorld (s"proj") (KDir tree)) docfn1 [] (s"proj")
+    PyWalkSource.document (PyWorld (s"proj") (KDir tree) None) docfn1 [] (s"proj")
                           (py_settings_of (mk true true None true) hdrs1 (fun _ _ => true) true) = [].
   Proof. vm_compute. reflexivity. Qed.
+
+  (* ---- the output directory inside the input tree ----
+     proj/_build/docs is the output directory and exists already (a second run): it holds the pages
+     of the first run and, to make a descent visible, a left-over .cmake file and a sub-directory
+     with one.  Recursive, auto-exclusion of directories without .cmake files switched off. *)
+  Definition tree_out : list node :=
+    [ F (s"top.cmake") [1%N];
+      D (s"_build") [ F (s"notes.txt") [2%N];
+                      D (s"docs") [ F (s"index.rst") [3%N]; F (s"stale.cmake") [4%N];
+                                    D (s"sub") [ F (s"index.rst") [5%N]; F (s"x.cmake") [6%N] ] ];
+                      D (s"other") [ F (s"o.cmake") [7%N] ] ];
+      D (s"src") [ F (s"a.cmake") [8%N]; D (s"docs") [ F (s"d.cmake") [9%N] ] ] ].
+  Definition out_here : option (list str) := Some [s"_build"; s"docs"].
+  Definition st_out : wsettings := mk true true None false.
+  (* every path the run creates or writes, below the output directory *)
+  Definition touched (acts : list action) : list (list str) :=
+    flat_map (fun a => match a with AWrite p _ | AMkDirs p => [p] | _ => [] end) acts.
+  Definition below_output_dir (p : list str) : bool :=
+    match p with a :: b :: _ => str_eqb a (s"_build") && str_eqb b (s"docs") | _ => false end.
+  Definition index_of (rel : list str) (acts : list action) : list str :=
+    flat_map (fun a => match a with
+                       | AWrite p text => if strs_eqb p (rel ++ [s"index.rst"]) then [text] else []
+                       | _ => []
+                       end) acts.
+
+  Example tree_out_hypotheses :
+    names_distinct tree_out = true /\ out_consistent st_out out_here = true
+    /\ dir_at tree_out [s"_build"; s"docs"] <> None.
+  Proof. repeat split; vm_compute; try reflexivity. discriminate. Qed.
+
+  (* nothing at or below proj/_build/docs is walked (no page, no index, no directory for it); the
+     index of proj/_build lists other/index.rst and not docs/index.rst; the rest of the tree is
+     documented as usual, proj/src/docs included (the pruning is by position, not by name); and the
+     run is the model's with the predicate excl_with_output *)
+  Example run_output_inside_input :
+    run_at out_here st_out (KDir tree_out)
+    = Walk.document st_out hdrs1 docfn1 (excl_with_output excl1 out_here) (s"proj") (KDir tree_out)
+    /\ wpaths (run_at out_here st_out (KDir tree_out))
+       = [ [s"index.rst"]; [s"top.rst"];
+           [s"_build"; s"index.rst"];
+           [s"_build"; s"other"; s"index.rst"]; [s"_build"; s"other"; s"o.rst"];
+           [s"src"; s"index.rst"]; [s"src"; s"a.rst"];
+           [s"src"; s"docs"; s"index.rst"]; [s"src"; s"docs"; s"d.rst"] ]
+    /\ existsb below_output_dir (touched (run_at out_here st_out (KDir tree_out))) = false
+    /\ map (contains (s"other/index.rst")) (index_of [s"_build"] (run_at out_here st_out (KDir tree_out))) = [true]
+    /\ map (contains (s"docs/index.rst")) (index_of [s"_build"] (run_at out_here st_out (KDir tree_out))) = [false].
+  Proof. repeat split; vm_compute; reflexivity. Qed.
+
+  (* the same tree and settings with the output directory elsewhere: proj/_build/docs is an
+     ordinary directory, walked and listed *)
+  Example run_output_outside_same_tree :
+    run_at None st_out (KDir tree_out) = Walk.document st_out hdrs1 docfn1 excl1 (s"proj") (KDir tree_out)
+    /\ existsb below_output_dir (touched (run_at None st_out (KDir tree_out))) = true
+    /\ In [s"_build"; s"docs"; s"sub"; s"x.rst"] (wpaths (run_at None st_out (KDir tree_out)))
+    /\ map (contains (s"docs/index.rst")) (index_of [s"_build"] (run_at None st_out (KDir tree_out))) = [true].
+  Proof.
+    split; [vm_compute; reflexivity|]. split; [vm_compute; reflexivity|]. split; [|vm_compute; reflexivity].
+    vm_compute. tauto.
+  Qed.
+
+  (* the output directory being the input directory itself prunes nothing; and without a configured
+     output directory the world must not place one (out_consistent), else model and source differ *)
+  Example run_output_is_input :
+    run_at (Some []) st_out (KDir tree_out) = run_at None st_out (KDir tree_out).
+  Proof. vm_compute. reflexivity. Qed.
+  Example document_matches_source_without_out_consistent_refuted :
+    out_consistent (mk false true None false) out_here = false
+    /\ run_at out_here (mk false true None false) (KDir tree_out)
+       <> Walk.document (mk false true None false) hdrs1 docfn1 (excl_with_output excl1 out_here) (s"proj") (KDir tree_out).
+  Proof.
+    split; [vm_compute; reflexivity|].
+    intros H. apply (f_equal (@length action)) in H. vm_compute in H. discriminate H.
+  Qed.
 
   (* The hypothesis names_distinct cannot be dropped: on a tree with two sibling directories of
      the same name (which no file system has) the lookups by name of os.scandir / os.walk reach
@@ -1136,7 +1330,13 @@ Module Examples.
 End Examples.
 
 (* ==== MAIN THEOREMS ==== *)
-(* document_matches_source                 document() of the current source = Walk.document
+(* document_matches_source                 document() of the current source = Walk.document with the
+                                           exclusion predicate excl_with_output excl o, o = where the
+                                           output directory is relative to the input
+   document_matches_source_output_outside  o = None: = Walk.document with excl (the statement as it was)
+   excl_with_output_none / _file / _input / _dir   what excl_with_output is
+   document_source_gen                     the same for any predicate that is the patterns on files and on the
+                                           input, and the patterns or being the output directory on sub-directories
    document_dir_source / document_file_source / document_missing_source   its three branches
    document_excluded_input_source          an excluded input gives no action
    document_single_file_matches_source     document_single_file for a file below an input directory
@@ -1145,6 +1345,9 @@ End Examples.
    os_walk_dir / walk_node_rec             os.walk with a body that does one model step is the model walk
    Examples.document_matches_source_without_distinct_names_refuted *)
 Print Assumptions document_matches_source.
+Print Assumptions document_matches_source_output_outside.
+Print Assumptions excl_with_output_none.
+Print Assumptions Examples.run_output_inside_input.
 Print Assumptions document_excluded_input_source.
 Print Assumptions document_single_file_matches_source.
 Print Assumptions document_single_file_matches_source_file.
